@@ -57,17 +57,17 @@ type Fact struct {
 }
 
 type Summary struct {
-	Fn     *ssa.Function
-	Writes map[string]*Fact
-	Rets   map[string]Root // roots the results may alias
+	Fn          *ssa.Function
+	Writes      map[string]*Fact
+	Rets        map[string]Root // roots the results may alias
 	RetsUnknown bool
 }
 
 type Analysis struct {
-	Prog  *ssa.Program
-	CG    *callgraph.Graph
-	Sums  map[*ssa.Function]*Summary
-	Funcs []*ssa.Function
+	Prog    *ssa.Program
+	CG      *callgraph.Graph
+	Sums    map[*ssa.Function]*Summary
+	Funcs   []*ssa.Function
 	modPath string
 }
 
@@ -586,9 +586,9 @@ func (a *Analysis) protected(fn *ssa.Function, ins ssa.Instruction, target ssa.V
 
 // GoSite is a go statement with the summary of what it runs.
 type GoSite struct {
-	Instr  *ssa.Go
-	Fn     *ssa.Function // enclosing function
-	InLoop bool
+	Instr   *ssa.Go
+	Fn      *ssa.Function // enclosing function
+	InLoop  bool
 	Callees []*ssa.Function
 }
 
